@@ -1,4 +1,7 @@
 import Mathlib.Analysis.Normed.Algebra.MatrixExponential
+import CogentModel.Proofs.C05RealLemmas
+import Mathlib.Tactic.Linarith
+import Mathlib.Tactic.Ring
 import Mathlib.Tactic.NormNum
 import Mathlib.Tactic.FinCases
 /-!
@@ -83,13 +86,51 @@ example : ∀ j, ∑ i, piex i * Qex i j = 0 := by
 example : ∀ i j, piex i * Qex i j = piex j * Qex j i := by
   intro i j; fin_cases i <;> fin_cases j <;> simp [Qex, piex] <;> norm_num
 
-/- FULL STATEMENT (not proved): entrywise non-negativity of the transition matrices,
-   theorem P_nonneg (Q : Matrix n n ℝ) (t : ℝ) (ht : 0 ≤ t) (hQ : ∀ i j, i ≠ j → 0 ≤ Q i j) (i j : n) :
-       0 ≤ P Q t i j
-   Route: `exp (t•Q) = exp (-(c*t)) • exp (t • (Q + c•1))` for `c ≥ max_i |Q i i|` (the two summands
-   commute), `Q + c•1` is entrywise non-negative, `exp` of an entrywise non-negative matrix is a
-   convergent sum of entrywise non-negative terms and entry evaluation is continuous.  Not attempted
-   to completion in the time box; the harness checks `P ≥ 0` (up to -1e-12) on the implementation for
-   every back-end instead, and `P_rowsum_one` + `P_nonneg` together would give "row-stochastic". -/
+/-- Entrywise non-negativity of every transition matrix of a generator with non-negative off-diagonal
+entries (a Metzler matrix): together with `P_rowsum_one`, `P Q t` is row-stochastic for `t ≥ 0`. -/
+theorem P_nonneg (Q : Matrix n n ℝ) (t : ℝ) (ht : 0 ≤ t) (hQ : ∀ i j, i ≠ j → 0 ≤ Q i j) (i j : n) :
+    0 ≤ P Q t i j := by
+  -- shift by c = ∑ |Q_ii| so that t • (Q + c • 1) is entrywise non-negative
+  let c : ℝ := ∑ k, |Q k k|
+  have hc : ∀ k, -Q k k ≤ c := fun k =>
+    le_trans (neg_le_abs (Q k k)) (Finset.single_le_sum (f := fun k => |Q k k|) (fun _ _ => abs_nonneg _) (Finset.mem_univ k))
+  let A : Matrix n n ℝ := t • (Q + c • (1 : Matrix n n ℝ))
+  have hA : ∀ a b, 0 ≤ A a b := by
+    intro a b
+    simp only [A, Matrix.smul_apply, Matrix.add_apply, smul_eq_mul, Matrix.one_apply]
+    apply mul_nonneg ht
+    by_cases hab : a = b
+    · subst hab; rw [if_pos rfl, mul_one]; linarith [hc a]
+    · rw [if_neg hab, mul_zero, add_zero]; exact hQ a b hab
+  have hsplit : t • Q = A + algebraMap ℝ (Matrix n n ℝ) (-(t * c)) := by
+    ext a b
+    simp only [A, Matrix.smul_apply, Matrix.add_apply, smul_eq_mul, Matrix.one_apply, Matrix.algebraMap_matrix_apply,
+      Algebra.algebraMap_self, RingHom.id_apply]
+    by_cases hab : a = b
+    · subst hab; simp; ring
+    · simp [hab]
+  have hcomm : Commute A (algebraMap ℝ (Matrix n n ℝ) (-(t * c))) := (Algebra.commutes _ _).symm
+  have e1 : exp (A + algebraMap ℝ (Matrix n n ℝ) (-(t * c))) = exp A * exp (algebraMap ℝ (Matrix n n ℝ) (-(t * c))) :=
+    Matrix.exp_add_of_commute _ _ hcomm
+  have e2 : exp (algebraMap ℝ (Matrix n n ℝ) (-(t * c))) = algebraMap ℝ (Matrix n n ℝ) (exp (-(t * c))) :=
+    (algebraMap_exp_comm (-(t * c))).symm
+  have key : P Q t = exp A * algebraMap ℝ (Matrix n n ℝ) (exp (-(t * c))) := by
+    unfold P
+    rw [hsplit]
+    exact e1.trans (congrArg (fun z => exp A * z) e2)
+  rw [key, Matrix.mul_apply]
+  apply Finset.sum_nonneg
+  intro k _
+  apply mul_nonneg (exp_entry_nonneg A hA i k)
+  rw [Matrix.algebraMap_matrix_apply]
+  split
+  · rw [Algebra.algebraMap_self, RingHom.id_apply]
+    have h2 : exp (-(t * c)) = exp (-(t * c) / 2) * exp (-(t * c) / 2) := by
+      rw [← NormedSpace.exp_add]; congr 1; ring
+    rw [h2]; exact mul_self_nonneg _
+  · exact le_refl _
+
+example : ∀ i j, i ≠ j → 0 ≤ Qex i j := by
+  intro i j h; fin_cases i <;> fin_cases j <;> simp [Qex] at h ⊢
 
 end CogentModel.C05Real
